@@ -73,6 +73,11 @@ def materialise(folder, storage):
     paths["missing"] = os.path.join(folder, "no_such_*_data" + suffix)
     paths["directory"] = os.path.join(folder, "a_directory" + suffix)
     os.makedirs(paths["directory"], exist_ok=True)
+    # a plugin folder that defines nothing a CID of this run uses
+    paths["plugins"] = os.path.join(folder, "plugins")
+    os.makedirs(paths["plugins"], exist_ok=True)
+    with open(os.path.join(paths["plugins"], "unrelated_plugin.py"), "w") as plugin_file:
+        plugin_file.write("ANSWER = 42\n")
     return paths
 
 
@@ -85,7 +90,30 @@ def argv_of(vec, paths):
         return ["cutplace", "--until", "-2", paths["cid:valid"], paths["accepted"]]
     if vec["args"] == "untilNotNumber":
         return ["cutplace", "--until", "many", paths["cid:valid"], paths["accepted"]]
-    return ["cutplace"] + UNTIL[vec["until"]] + [paths["cid:" + vec["cid"]]] + [paths[kind] for kind in vec["files"]]
+    if vec["args"] == "badLogLevel":
+        return ["cutplace", "--log", "verbose", paths["cid:valid"], paths["accepted"]]
+    if vec["args"] == "untilWithoutValue":
+        return ["cutplace", paths["cid:valid"], paths["accepted"], "--until"]
+    if vec["args"] == "optionBetweenCidAndData":
+        return ["cutplace", paths["cid:valid"], "--until", "2", paths["accepted"]]
+    if vec["args"] == "pluginsWithoutValue":
+        return ["cutplace", paths["cid:valid"], paths["accepted"], "--plugins"]
+    until = UNTIL[vec["until"]]
+    positional = [paths["cid:" + vec["cid"]]] + [paths[kind] for kind in vec["files"]]
+    deco = vec.get("deco", "plain")
+    if deco == "logDebug":
+        return ["cutplace", "--log", "debug"] + until + positional
+    if deco == "logCritical":
+        return ["cutplace"] + until + ["--log", "critical"] + positional
+    if deco == "pluginsEmpty":
+        return ["cutplace", "--plugins", paths["plugins"]] + until + positional
+    if deco == "shortUntil":
+        return ["cutplace"] + (["-u"] + until[1:] if until else []) + positional
+    if deco == "untilEquals":
+        return ["cutplace"] + (["--until=" + until[1]] if until else []) + positional
+    if deco == "optionsLast":
+        return ["cutplace"] + positional + until
+    return ["cutplace"] + until + positional
 
 
 def run_main(argv):
@@ -140,9 +168,9 @@ def replay(behaviour, report=None):
 def run(tier, report):
     core.import_repo()
     vectors = []
-    for cfg in ("Cli_files.cfg", "Cli_args.cfg"):
+    for cfg in ("Cli_files.cfg", "Cli_args.cfg", "Cli_options.cfg"):
         result = core.tlc("MCCli", cfg)
-        core.require_coverage(result, ["ParseArgs"] + (["LoadCid", "ValidateFile", "Finish"] if cfg == "Cli_files.cfg" else []), cfg)
+        core.require_coverage(result, ["ParseArgs"] + (["LoadCid", "ValidateFile", "Finish"] if cfg != "Cli_args.cfg" else []), cfg)
         report.add_tlc("Cli %s" % cfg, result)
         vectors += result.by_tag("VEC")
     vectors = sorted(vectors, key=core.json.dumps)
